@@ -129,10 +129,11 @@ def hexs (b : Bytes) : String := hex b
 
 def asciiStr (b : Bytes) : String := String.ofList (b.map fun c => Char.ofNat c.toNat)
 
-def joinWith (sep : String) : List String → String
+def joinWith (sep : String) (xs : List String) : String :=
+  -- left fold into one growing buffer (linear; wide containers have thousands of children)
+  match xs with
   | [] => ""
-  | [x] => x
-  | x :: xs => x ++ sep ++ joinWith sep xs
+  | x :: rest => rest.foldl (fun acc y => acc ++ sep ++ y) x
 
 /-- canonical text of a generic value: `n t f #<literal> s<hex> [..,..] {<hexkey>:<v>,..}` -/
 partial def canonG : GVal → String
